@@ -79,7 +79,9 @@ def check(tier, seed, replay=None):
                 with open(os.path.join(srv.root, 'top.dat'), 'w') as f:
                     f.write('precious too')
                 before = srv.tree()
-                names = ['../victim', '../../top', '../escaped', '/tmp/syz_abs_escape_%d' % os.getpid(), 'sub/dir', '..', '.', '', 'a\\b', 'good', 'x\u0000y', '..%2Fvictim', '%2e%2e%2fvictim']
+                escaped = []
+                names = ['../victim', '../../top', '../escaped', '/tmp/syz_abs_escape_%d' % os.getpid(), 'sub/dir', '..', '.', '', 'a\\b', 'good', 'x\u0000y', '..%2Fvictim', '%2e%2e%2fvictim',
+                         '\u2025\uff0fvictim', '\uff0e\uff0e\uff0fvictim', '..\uff0fvictim', '..\u2215victim', '..\u2044victim', '\u2024\u2024/victim', ' ../victim', '../victim ', '\u2025\uff0fescaped2', '\uff0e\uff0e\uff0fescaped3', '..\u2215escaped4', ' ../escaped5', '../escaped6 ', '..\\victim', '\uff0e\uff0e\uff3cvictim']
                 if tier == 'thorough':
                     names += ['../' * k + 'deep' for k in range(1, 6)] + [n.decode('latin1') for n in NAMES if b'\x00' not in n]
                 from urllib.parse import quote
@@ -107,14 +109,21 @@ def check(tier, seed, replay=None):
                         stats['server_requests'] += 1
                         if not srv.alive():
                             srv.start()
+                        # after EVERY request: a file created by one request may be removed again by a later one
+                        now = srv.tree()
+                        if now != before and not escaped:
+                            diff = sorted(k for k in set(before) | set(now) if before.get(k) != now.get(k))
+                            escaped.append('%s %s (name %r) changed %s' % (method, path[:80], nm, diff[:4]))
                 after = srv.tree()
                 changed = {k: (before.get(k), after.get(k)) for k in set(before) | set(after) if before.get(k) != after.get(k)}
                 absfile = '/tmp/syz_abs_escape_%d.dat' % os.getpid()
                 if os.path.exists(absfile):
                     changed[absfile] = (None, 'created')
                     os.remove(absfile)
+                if escaped and not changed:
+                    changed = {escaped[0]: ('transient', 'transient')}
                 if changed:
-                    chk.violation({'engine': 'rest', 'what': 'files outside the data folder were created, modified or deleted through collection names: %s' % sorted(changed)[:5],
+                    chk.violation({'engine': 'rest', 'what': 'files outside the data folder were created, modified or deleted through collection names: %s %s' % (sorted(changed)[:5], escaped[:1]),
                                    'signature': 'rest:C19:outside'})
                     nviol += 1
         finally:
